@@ -1669,5 +1669,81 @@ func (c *Ctx) setterRule(rule string) {
 			}
 		}
 	}
-	r.Floor(rule, "attribute stores of exported tracker methods checked on success returns", n, 4)
+	// the same inside closures an exported method hands to a locked "update" helper: a captured parameter stored
+	// into a tracked object is stored on every path of the closure
+	for i := 0; i < ms.Len(); i++ {
+		sel := ms.At(i)
+		if !sel.Obj().Exported() {
+			continue
+		}
+		fn := c.SSA.MethodValue(sel)
+		if fn == nil || fn.Blocks == nil {
+			continue
+		}
+		for _, anon := range fn.AnonFuncs {
+			var mc *ssa.MakeClosure
+			funcInstrs(fn, func(in ssa.Instruction) {
+				if m2, ok := in.(*ssa.MakeClosure); ok && m2.Fn == ssa.Value(anon) {
+					mc = m2
+				}
+			})
+			if mc == nil {
+				continue
+			}
+			funcInstrs(anon, func(in ssa.Instruction) {
+				st, ok := in.(*ssa.Store)
+				if !ok {
+					return
+				}
+				// captured variables are cells: the stored value is a load of the free variable
+				var fvv *ssa.FreeVar
+				if u, isU := st.Val.(*ssa.UnOp); isU && u.Op == token.MUL {
+					fvv, _ = u.X.(*ssa.FreeVar)
+				} else {
+					fvv, _ = st.Val.(*ssa.FreeVar)
+				}
+				if fvv == nil {
+					return
+				}
+				bound := false
+				for bi, fv2 := range anon.FreeVars {
+					if fv2 == fvv && bi < len(mc.Bindings) {
+						switch bv := mc.Bindings[bi].(type) {
+						case *ssa.Parameter:
+							bound = true
+						case *ssa.Alloc:
+							sts := cellStores(bv)
+							if len(sts) == 1 {
+								_, bound = sts[0].Val.(*ssa.Parameter)
+							}
+						}
+					}
+				}
+				fv, base := fieldOf(st.Addr)
+				if !bound || fv == nil {
+					return
+				}
+				if _, ok := tracked[derefStruct(base.Type())]; !ok {
+					return
+				}
+				n++
+				okAll, _ := AllPathsFromEntryPass(anon, func(x ssa.Instruction) bool {
+					s2, isS := x.(*ssa.Store)
+					if !isS {
+						return false
+					}
+					same := s2.Val == st.Val
+					if u2, isU := s2.Val.(*ssa.UnOp); isU && u2.Op == token.MUL && u2.X == ssa.Value(fvv) {
+						same = true
+					}
+					f2, _ := fieldOf(s2.Addr)
+					return same && f2 == fv
+				})
+				r.Add(rule, fmt.Sprintf("setter:%s:%s", c.FuncKey(anon), fv.Name()), c.InstrPos(st), c.FuncKey(anon),
+					"captured parameter "+fvv.Name()+" is stored to "+fv.Name()+" on every path of the update closure", okAll,
+					"the closure can return without storing "+fvv.Name()+" to "+fv.Name())
+			})
+		}
+	}
+	r.Floor(rule, "attribute stores of exported tracker methods checked on success returns", n, 3)
 }
